@@ -109,7 +109,7 @@ func trace(out string, n, blocks, nk, capacity, readsPerBlock int) {
 				if rng.Intn(3) == 0 {
 					step(hx.Step{"op": "Remove", "k": k})
 				} else {
-					step(hx.Step{"op": "Set", "k": k, "v": 1 + rng.Intn(4)})
+					step(hx.Step{"op": "Set", "k": k, "v": []int{vEmpty, 1, 2, 3}[rng.Intn(4)]})
 				}
 				if rng.Intn(3) == 0 { // reads in the middle of a block (uncommitted writes present)
 					vc = viewCache{}
